@@ -98,6 +98,8 @@ def directed():
         ('fullstack', _chain(_w(1, 'mapper', s, 'same'),
                              {'op': 'fullstack', 'id': 2, 'n': 2, 'bases': [_w(21, 'mapper', S, 'same'), _w(22, 'mapper', S, 'same')]},
                              _w(3, 'mapper', S, 'same'))),
+        # a label operator in front of the first stateful operator (its trainer takes the raw features but transformed labels)
+        ('label-first', _chain(_w(1, 'label', None, None, s), _w(2, 'mapper', S, 'same'), _w(3, 'mapper', S, 'same'))),
         # one builder object shared by several persisted groups (hand-written operator expanded twice / per fold)
         ('shared-builder-groups', _chain(dict(_w(1, 'mapper', S, 'same'), handmade=True), {'op': 'twice', 'id': 2},
                                          {'op': 'fullstack', 'id': 3, 'n': 2, 'bases': [dict(_w(31, 'mapper', S, 'same'), handmade=True)]},
@@ -346,8 +348,9 @@ def _head_trainers(expr, fits, persistent) -> bool:
     its trainer hangs off the (discarded) train-trunk head of the perftrack composition."""
     for f in fits:
         if f.op == 'fit' and f.args[0] in persistent:
-            features = f.args[2]
-            if features.op == 'out' and features.args[1].op == 'app' and features.args[1].args[0].split('#')[0] == 'split':
+            features, labels = f.args[2], f.args[3]
+            raw = [t.op == 'out' and t.args[1].op == 'app' and t.args[1].args[0].split('#')[0] == 'split' for t in (features, labels)]
+            if all(raw):  # features AND labels straight from the trunk heads (a label operator in front keeps the trainer alive)
                 return True
     return False
 
